@@ -24,6 +24,7 @@ FirstBad(x, y, i) == IF i > Len(x) \/ i > Len(y) THEN i ELSE IF x[i] = y[i] THEN
 Verdict(c) ==
   IF c.err # "" THEN <<"StmtActivation", 0>>
   ELSE IF c.events # Want(c) THEN <<"StmtStream", FirstBad(c.events, Want(c), 1)>>
+  ELSE IF ~Stream2(StOf(c), ToSet(c.I)) THEN <<"RepeatedNameFinalValue", 0>>       \* real = the transcription, which breaks the stream law here
   ELSE IF c.stores # WantStores(c) THEN <<"StmtStores", FirstBad(c.stores, WantStores(c), 1)>>
   ELSE <<"ok", 0>>
 Init2 == cid \in 1..Len(Cases) /\ done = FALSE
